@@ -127,7 +127,7 @@ func runC16(p *Prog, r *Report) {
 	dropDoesNotDisconnect(p, r, "C16.10/drop-does-not-disconnect", func(rel string) bool { return strings.HasPrefix(rel, "protocol/") })
 	r.Floor("C16.10/drop-does-not-disconnect", "wire.receiver_drops", 15)
 	c19OptionsReadAtUse(p, r, "C16.11/limit-read-per-connection")
-	r.Describe("C16.8/accept-loop", "the accept goroutine of every stream transport never waits for an accepted peer (no read, TLS or SP handshake inside the loop around Accept)")
+	r.Describe("C16.8/accept-loop", "the accept goroutine of every stream transport never waits for an accepted peer (no read, TLS or SP handshake inside the loop around Accept) and never parks on a channel, WaitGroup or condition variable, directly or anywhere below the calls it makes (only another goroutine could end such a wait, and a peer that stays silent never does)")
 	acceptLoopRules(p, r, "C16.8/accept-loop")
 	r.Floor("C16.8/accept-loop", "wire.accept_loops", 3)
 	acceptPauseBounded(p, r, "C16.21/accept-pause-bounded")
